@@ -274,3 +274,63 @@ pub proof fn lemma_assert_affine_list(c: Linearizer, es: Vec<Exp>, ws: Seq<Exp>,
         }
     }
 }
+// ----- reified binary connectives (kind 0 = implies, 1 = iff, 2 = xor) -----
+pub open spec fn conn2(kind: int, l: Box<Exp>, r: Box<Exp>) -> Exp { if kind == 0 { Exp::Implies(l, r) } else if kind == 1 { Exp::Iff(l, r) } else { Exp::Xor(l, r) } }
+pub open spec fn rows2(kind: int, z: real, x: real, y: real) -> bool {
+    if kind == 0 { z >= 1real - x && z >= y && z <= 1real - x + y }
+    else if kind == 1 { z >= x + y - 1real && z >= 1real - x - y && z <= 1real - x + y && z <= 1real + x - y }
+    else { z <= x + y && z >= x - y && z >= y - x && z <= 2real - x - y }
+}
+pub proof fn lemma_reify2(c: Linearizer, kind: int, l: Box<Exp>, r: Box<Exp>, a: Exp, b: Exp, lc: LinearizationContext, z: Seq<char>, req: ValueRequirement)
+    requires
+        0 <= kind <= 2,
+        forall|env: Env| #[trigger] lz_ok(c, env) ==> (sem(a, env) matches Some(x) && (x == 0real || x == 1real) && (sem(*l, env) matches Some(tl) ==> x == tl)),
+        forall|env: Env| #[trigger] lz_ok(c, env) ==> (sem(b, env) matches Some(y) && (y == 0real || y == 1real) && (sem(*r, env) matches Some(tr) ==> y == tr)),
+        forall|env: Env| #[trigger] lz_ok(c, env) ==> lc_eval(lc, env) == env[z] && (env[z] == 0real || env[z] == 1real) && rows2(kind, env[z], sem(a, env)->Some_0, sem(b, env)->Some_0),
+    ensures forall|env: Env| #[trigger] lz_ok(c, env) ==> (sem(conn2(kind, l, r), env) matches Some(t) ==> relaxes(req, lc_eval(lc, env), t)),
+{
+    assert forall|env: Env| #[trigger] lz_ok(c, env) implies (sem(conn2(kind, l, r), env) matches Some(t) ==> relaxes(req, lc_eval(lc, env), t)) by {
+        lemma_sem_implies(l, r, env); lemma_sem_iff(l, r, env); lemma_sem_xor(l, r, env);
+    }
+}
+// ----- reified n-ary connectives -----
+pub proof fn lemma_all_01(es: Seq<Exp>, env: Env, is_and: bool, n: int)
+    requires 0 <= n <= es.len()
+    ensures sem_all(es, env, is_and, n) matches Some(y) ==> (y == 0real || y == 1real)
+{}
+pub proof fn lemma_ssum_ones(ws: Seq<Exp>, env: Env, n: int)
+    requires 0 <= n <= ws.len(), forall|k: int| 0 <= k < n ==> sem(#[trigger] ws[k], env) == Some(1real)
+    ensures ssum(ws, env, n) == n as real
+    decreases n
+{ if n > 0 { lemma_ssum_ones(ws, env, n - 1); } }
+// the rows tying a reified and / or to its operand values: z (<= | >=) every operand, and z (>= sum - (n-1) | <= sum)
+pub proof fn lemma_reify_list(c: Linearizer, es: Vec<Exp>, ws: Seq<Exp>, is_and: bool, lc: LinearizationContext, z: Seq<char>, req: ValueRequirement)
+    requires
+        ws.len() == es@.len(), ws.len() >= 1,
+        forall|k: int, env: Env| 0 <= k < ws.len() && #[trigger] lz_ok(c, env) ==> (sem(#[trigger] ws[k], env) matches Some(x) && (x == 0real || x == 1real) && (sem(es@[k], env) matches Some(te) ==> x == te)),
+        forall|env: Env| #[trigger] lz_ok(c, env) ==> lc_eval(lc, env) == env[z] && (env[z] == 0real || env[z] == 1real),
+        forall|k: int, env: Env| 0 <= k < ws.len() && #[trigger] lz_ok(c, env) ==> (if is_and { env[z] <= sem(#[trigger] ws[k], env)->Some_0 } else { env[z] >= sem(ws[k], env)->Some_0 }),
+        forall|env: Env| #[trigger] lz_ok(c, env) ==> (if is_and { env[z] >= ssum(ws, env, ws.len() as int) - (ws.len() as real - 1real) } else { env[z] <= ssum(ws, env, ws.len() as int) }),
+    ensures forall|env: Env| #[trigger] lz_ok(c, env) ==> (sem(if is_and { Exp::And(es) } else { Exp::Or(es) }, env) matches Some(t) ==> relaxes(req, lc_eval(lc, env), t)),
+{
+    let e = if is_and { Exp::And(es) } else { Exp::Or(es) };
+    let n = ws.len() as int;
+    assert forall|env: Env| #[trigger] lz_ok(c, env) implies (sem(e, env) matches Some(t) ==> relaxes(req, lc_eval(lc, env), t)) by {
+        if sem(e, env) is Some {
+            let t = sem(e, env)->Some_0;
+            lemma_all_01(es@, env, is_and, n);
+            assert forall|k: int| 0 <= k < n implies (sem(#[trigger] ws[k], env) == Some(0real) || sem(ws[k], env) == Some(1real)) by {}
+            let target = if is_and { 1real } else { 0real };
+            if forall|k: int| 0 <= k < n ==> sem(#[trigger] ws[k], env) == Some(target) {
+                // every operand has the connective's own polarity
+                assert forall|k: int| 0 <= k < n implies (sem(#[trigger] es@[k], env) matches Some(x) ==> truthy(x) == is_and) by { assert(sem(ws[k], env) == Some(target)); }
+                lemma_all_uniform(es@, env, is_and, n);
+                if is_and { lemma_ssum_ones(ws, env, n); } else { lemma_ssum_zero(ws, env, n); }
+            } else {
+                let j = choose|j: int| 0 <= j < n && sem(#[trigger] ws[j], env) != Some(target);
+                assert(sem(ws[j], env) == Some(0real) || sem(ws[j], env) == Some(1real));
+                lemma_all_one(es@, env, is_and, n, j);
+            }
+        }
+    }
+}
